@@ -164,7 +164,8 @@ PartBase(p) == p.b
 (***************************************************************************)
 (* The nodes that get a name, in visiting order: the top-level             *)
 (* placeholders and plurals first, then the placeholders of the plural's   *)
-(* case bodies (cases in order, default last).                             *)
+(* case bodies (cases in order, default last), then those of plurals       *)
+(* nested in the cases, and so on (breadth first).                         *)
 (***************************************************************************)
 MsgIsSubst(p) == p.k # "text"
 MsgSubstOf(body) == SelectSeq(body, MsgIsSubst)
@@ -173,26 +174,40 @@ RECURSIVE MsgFlatCases(_)
 MsgFlatCases(cs) ==
   IF cs = <<>> THEN <<>> ELSE MsgSubstOf(Head(cs).body) \o MsgFlatCases(Tail(cs))
 
-RECURSIVE MsgInnerOf(_)
-MsgInnerOf(top) ==
-  IF top = <<>> THEN <<>>
-  ELSE (IF Head(top).k = "plural"
-        THEN MsgFlatCases(Head(top).cases) \o MsgSubstOf(Head(top).dflt) ELSE <<>>)
-       \o MsgInnerOf(Tail(top))
+\* Breadth first, with a queue, as the official algorithm walks the message:
+\* a plural is named when it is taken from the queue and the placeholders (and
+\* plurals) of its cases are appended BEHIND everything already queued.  So
+\* with nested plurals all nodes of one depth come before any deeper node.
+RECURSIVE MsgBFS(_)
+MsgBFS(queue) ==
+  IF queue = <<>> THEN <<>>
+  ELSE LET h == Head(queue) IN
+       <<h>> \o MsgBFS(Tail(queue) \o (IF h.k = "plural"
+                                         THEN MsgFlatCases(h.cases) \o MsgSubstOf(h.dflt) ELSE <<>>))
+
+\* (what a recursive walk would do instead: a plural's inner nodes right after it)
+RECURSIVE MsgDFS(_)
+MsgDFS(q) ==
+  IF q = <<>> THEN <<>>
+  ELSE LET h == Head(q) IN
+       <<h>> \o (IF h.k = "plural" THEN MsgDFS(MsgFlatCases(h.cases) \o MsgSubstOf(h.dflt)) ELSE <<>>)
+           \o MsgDFS(Tail(q))
 
 \* the parts that get a name, in visiting order
-MsgNodeParts(body) == MsgSubstOf(body) \o MsgInnerOf(MsgSubstOf(body))
+MsgNodeParts(body) == MsgBFS(MsgSubstOf(body))
+MsgNodePartsDFS(body) == MsgDFS(MsgSubstOf(body))
 
 \* ... each annotated with its base name: [p |-> part, b |-> base]
 MsgNodes(body) ==
   LET ps == MsgNodeParts(body) IN [i \in 1..Len(ps) |-> [p |-> ps[i], b |-> PartBase(ps[i])]]
 
 MsgHasPlural(body) == \E i \in 1..Len(body) : body[i].k = "plural"
-MsgWellFormed(body) ==
-  /\ MsgHasPlural(body) => Len(body) = 1
-  /\ \A i \in 1..Len(body) : body[i].k = "plural" =>
-        /\ ~MsgHasPlural(body[i].dflt)
-        /\ \A j \in 1..Len(body[i].cases) : ~MsgHasPlural(body[i].cases[j].body)
+\* the plural of a message is its sole child (the parser accepts further
+\* plurals inside the cases of a plural; those are named like everything else)
+MsgWellFormed(body) == MsgHasPlural(body) => Len(body) = 1
+MsgNested(body) ==
+  \E i \in 1..Len(body) : body[i].k = "plural" /\
+     (MsgHasPlural(body[i].dflt) \/ \E j \in 1..Len(body[i].cases) : MsgHasPlural(body[i].cases[j].body))
 
 (***************************************************************************)
 (* The official naming algorithm, over sequences.                          *)
@@ -289,9 +304,14 @@ MsgBaseIdent(p) ==
          ELSE IF p.e.acc[Len(p.e.acc)].k = "key" THEN p.e.acc[Len(p.e.acc)].key ELSE ""
   ELSE ""
 
+\* a tag whose name is not written in lower case
+MsgTagHasUpper(p) == p.k = "tag" /\ MsgAlnumRun(p.s, IF MsgTagIsEnd(p.s) THEN 3 ELSE 2) # MsgTagName(p.s)
+
 MsgFeature(body) ==
   LET ns == MsgNodes(body) IN
   IF MsgSuffixCollision(body) THEN "suffix-collides-with-base-name"
+  ELSE IF MsgNested(body) /\ MsgMultiGroup(body) THEN "same-base-name-at-different-plural-depths"
+  ELSE IF \E i \in 1..Len(ns) : MsgTagHasUpper(ns[i].p) THEN "tag-name-not-lower-case"
   ELSE IF MsgGroupingOnly(ns) THEN "exprs-differ-only-in-grouping"
   ELSE IF \E i \in 1..Len(ns) : MsgCloseHumps(MsgBaseIdent(ns[i].p)) THEN "identifier-adjacent-word-boundaries"
   ELSE IF \E i \in 1..Len(ns) : ns[i].p.k = "print" /\ ns[i].p.e.k = "global" /\ MsgLastDot(ns[i].p.e.name, Len(ns[i].p.e.name)) > 0
@@ -466,13 +486,48 @@ MsgExtraBodies == <<
   << MPrintD(MsgA1, <<MDir("noAutoescape", <<>>)>>), MPrint(MsgA1), MPrintD(MsgRef("a", <<MsgKeyAcc("x")>>), <<MDir("id", <<>>)>>), PoolC10[1] >>
 >>
 
+\* tag names in every case pattern (and with what may follow the name), each
+\* as start tag, end tag, self-closing tag and start tag with an attribute.
+\* The name is what precedes the first non-alphanumeric character, LOWER-CASED;
+\* then the table; then START_/END_ and upper-casing.
+MsgTagNames == << "textarea", "TEXTAREA", "TextArea", "textArea", "Textarea", "NoBr", "IFrame", "TBody",
+                  "h1", "H1", "x-foo", "X-Foo", "svg:rect", "SVG:Rect", "A", "Img", "BR", "eM", "Ul" >>
+MsgTagBodies ==
+  [i \in 1..Len(MsgTagNames) |->
+     LET n == MsgTagNames[i] IN
+     << MTag("<" \o n \o ">"), MText("t"), MTag("</" \o n \o ">"), MTag("<" \o n \o "/>"), MTag("<" \o n \o " k=v>") >>]
+
+MsgAllExtraBodies == MsgExtraBodies \o MsgTagBodies
+
+\* Nested plurals: {plural $n}{case 1}S1 {plural $m}{case 1}S2{default}S3{/plural} S4{default}S5{/plural}
+\* (or the inner plural in the default), the slots filled with placeholders that
+\* share the base name A, so that same-named placeholders sit at different
+\* depths, before and after the inner plural, in every order.
+MsgNestPool == << MPrint(MsgRef("x", <<MsgKeyAcc("a")>>)), MPrint(MsgRef("y", <<MsgKeyAcc("a")>>)), MPrint(MsgVar("a")), MText("t") >>
+MsgFamNested ==
+  {[kind |-> "nested", s1 |-> s1, s2 |-> s2, s3 |-> s3, s4 |-> s4, s5 |-> s5, indef |-> f] :
+      s1 \in 0..2, s2 \in 1..4, s3 \in 1..4, s4 \in 0..2, s5 \in 1..4, f \in BOOLEAN}
+MsgNestSlot(i) == IF i = 0 THEN <<>> ELSE <<MsgNestPool[i]>>
+MsgNestBody(d) ==
+  LET inner == MPlural(MsgVar("m"), <<MCase(1, MsgNestSlot(d.s2))>>, MsgNestSlot(d.s3))
+      withInner == MsgNestSlot(d.s1) \o <<inner>> \o MsgNestSlot(d.s4)
+      other == MsgNestSlot(d.s5) IN
+  << MPlural(MsgVar("n"), <<MCase(1, IF d.indef THEN other ELSE withInner)>>, IF d.indef THEN withInner ELSE other) >>
+
+\* Text / meaning pairs whose naive concatenation coincides: every split of a
+\* string into text | meaning (the last split has no meaning).  Their ids are
+\* all different (MsgIdAbs mixes two fingerprints; it does not join strings).
+MsgSplitStrings == << "Archivenoun", "Deleteverb", "mm" >>
+MsgFamSplit == UNION {{[kind |-> "split", s |-> k, at |-> i] : i \in 1..Len(MsgSplitStrings[k])} : k \in 1..Len(MsgSplitStrings)}
+MsgFamMeaning(d) == IF d.kind = "split" THEN MsgSuffixStr(MsgSplitStrings[d.s], d.at + 1) ELSE ""
+
 \* Where a message can sit in a template.  Names, placeholder string and id
 \* are functions of the message alone: none of these may matter.
 MsgContextKinds == << "alone", "after-message", "if", "elseif", "else", "foreach", "ifempty",
                       "switch-case", "switch-default", "let-block", "call-param", "log",
                       "nested", "twice", "last-template" >>
 
-MsgFamExtra == {[kind |-> "extra", i |-> i] : i \in 1..Len(MsgExtraBodies)}
+MsgFamExtra == {[kind |-> "extra", i |-> i] : i \in 1..Len(MsgAllExtraBodies)}
 
 MsgPick(pool, ix) == [i \in 1..Len(ix) |-> pool[ix[i]]]
 
@@ -481,7 +536,9 @@ MsgPluralSubjectBases == [i \in 1..Len(MsgPluralSubjects) |-> MsgExprBase(MsgPlu
 
 MsgFamBody(d) ==
   IF d.kind = "flat" THEN MsgPick(PoolC10, d.ix)
-  ELSE IF d.kind = "extra" THEN MsgExtraBodies[d.i]
+  ELSE IF d.kind = "extra" THEN MsgAllExtraBodies[d.i]
+  ELSE IF d.kind = "nested" THEN MsgNestBody(d)
+  ELSE IF d.kind = "split" THEN << MText(MsgPrefixStr(MsgSplitStrings[d.s], d.at)) >>
   ELSE << [k |-> "plural", e |-> MsgPluralSubjects[d.subj],
            cases |-> [i \in 1..Len(d.cb) |-> MCase(MsgCaseSets[d.cs][i], MsgPick(MsgInnerPool, d.cb[i]))],
            dflt |-> MsgPick(MsgInnerPool, d.db),
@@ -494,5 +551,7 @@ MsgIxStrs(q) == IF q = <<>> THEN "" ELSE MsgIxStr(Head(q)) \o "/" \o MsgIxStrs(T
 MsgFamId(d) ==
   IF d.kind = "flat" THEN "F" \o MsgIxStr(d.ix)
   ELSE IF d.kind = "extra" THEN "X" \o (IF d.i < 10 THEN "0" ELSE "") \o ToString(d.i)
+  ELSE IF d.kind = "nested" THEN "N" \o (IF d.indef THEN "d" ELSE "c") \o MsgIxStr(<<d.s1, d.s2, d.s3, d.s4, d.s5>>)
+  ELSE IF d.kind = "split" THEN "S" \o ToString(d.s) \o "." \o (IF d.at < 10 THEN "0" ELSE "") \o ToString(d.at)
   ELSE "P" \o ToString(d.subj) \o "c" \o ToString(d.cs) \o ":" \o MsgIxStrs(d.cb) \o "d" \o MsgIxStr(d.db)
 =============================================================================
